@@ -3,8 +3,10 @@ import DuneVerif.Model.C14
 
     map     IT PAT LAY CTOR EXTS [STRIDES]
     conv    IT PAT LAY KIND EXTS [STRIDES]
-    mdspan  IT PAT LAY ACC  EXTS [STRIDES]    (ACC: access form call|arr|span|br, or constructor form acc|vdyn|vfull|adyn|sdyn|sfull|def|swap)
-    mdarray IT PAT LAY CTOR ACC EXTS          (CTOR incl. arrext|arrval|arrcont: std::array container)
+    mdspan  IT PAT LAY ACC  EXTS [STRIDES]    (ACC: access form call|arr|span|br, or constructor form acc|accil|vdyn|vfull|adyn|sdyn|sfull|def|swap)
+    mdarray IT PAT LAY CTOR ACC EXTS [pad=K]  (CTOR incl. arrext|arrval|arrcont: std::array container; spanil|spanilal|stridedil: from a view
+                                               with the accessor `access(p,i) = p[2i+1]`; pad: surplus elements of the container)
+    bigmap  IT PAT LAY EXTS [STRIDES] : t;t;… (huge index spaces, observed at the listed index tuples)
     span    N EXT [VIA] : op;op;…             (VIA: how the initial span is constructed)
 -/
 open DV DV.C14
@@ -30,7 +32,21 @@ def typeTable : List String :=
    "int:d", "int:0", "int:1", "int:3", "size:d", "short:d", "short:2",
    "int:dd", "int:d3", "int:2d", "int:23", "int:0d", "size:dd", "size:40", "short:d2", "short:14",
    "int:ddd", "int:2d3", "int:d3d", "int:dd0", "size:ddd", "size:31d", "short:ddd",
-   "int:dddd", "int:2dd3", "int:d1d2", "int:2312", "size:dddd", "size:3d2d", "short:dddd", "short:ddd4"]
+   "int:dddd", "int:2dd3", "int:d1d2", "int:2312", "size:dddd", "size:3d2d", "short:dddd", "short:ddd4",
+   "long:dd", "long:d3d", "long:2ddd"]
+
+/-- the types for which `bigmap` is instantiated -/
+def bigTable : List String :=
+  ["int:-", "int:d", "size:d", "short:d", "int:dd", "int:2d", "size:dd", "short:d2", "int:d3d", "size:ddd", "size:31d",
+   "short:ddd", "int:dddd", "size:dddd", "size:3d2d", "long:dd", "long:d3d", "long:2ddd"]
+
+/-- largest required span used with an index type in `bigmap` lines -/
+def limitOf : String → Option Nat
+  | "short" => some 32767
+  | "int" => some 2147483647
+  | "size" => some (2 ^ 61)
+  | "long" => some (2 ^ 61)
+  | _ => none
 
 /-- the types for which mdspan/mdarray are instantiated as well -/
 def fullTable : List String :=
@@ -62,14 +78,14 @@ def showSext (p : Pattern) : String :=
   showList (p.map fun e => match e with | some s => (s : Int) | none => -1)
 
 /-- common prefix of the mapping ops: `IT PAT LAY X EXTS [STRIDES]` → (pattern, layout, X, extents, mapping) -/
-def parseMapping (ws : List String) (ctorOf : String → String) :
+def parseMapping (ws : List String) (ctorOf : String → String) (big : Bool := false) :
     Option (Pattern × Layout × String × Extents × Mapping) :=
   match ws with
   | it :: pat :: lay :: x :: exts :: rest =>
     if !typeTable.contains (it ++ ":" ++ pat) then none else
     match parsePattern pat, parseLayout lay, parseNatList? exts with
     | some p, some l, some full =>
-      if full.any (· > maxExt) then none else
+      if !big && full.any (· > maxExt) then none else
       match buildExtents p (ctorOf x) full with
       | none => none
       | some e =>
@@ -77,7 +93,7 @@ def parseMapping (ws : List String) (ctorOf : String → String) :
         | .stride, [ss] =>
           match parseNatList? ss with
           | some strides =>
-            if strides.length = p.length && !strides.any (· > maxStride) then some (p, l, x, e, mkMapping l e strides) else none
+            if strides.length = p.length && (big || !strides.any (· > maxStride)) then some (p, l, x, e, mkMapping l e strides) else none
           | none => none
         | .stride, _ => none
         | _, [] => some (p, l, x, e, mkMapping l e [])
@@ -166,7 +182,7 @@ def validAcc (acc : String) (rank : Nat) : Bool :=
 /-- mdspan op: access forms plus the constructor forms (custom accessor, variadic / array / span extents of `rank` or
     `rank_dynamic` values, default construction + assignment, swap); `def` needs a dynamic extent -/
 def validMdspanForm (acc : String) (p : Pattern) : Bool :=
-  validAcc acc p.length || ["acc", "vdyn", "vfull", "adyn", "sdyn", "sfull", "swap"].contains acc ||
+  validAcc acc p.length || ["acc", "accil", "vdyn", "vfull", "adyn", "sdyn", "sfull", "swap"].contains acc ||
   (acc == "def" && rankDynamic p != 0)
 
 def isFull (ws : List String) : Bool :=
@@ -178,47 +194,131 @@ def handleMdspan (ws : List String) : String :=
   match parseMapping ws (fun _ => "afull") with
   | some (p, _, acc, _, m) =>
     if !validMdspanForm acc p || !isFull ws then "bad-op" else
+    if acc == "accil" then
+      -- a view through the accessor `access(p, i) = p[2 i + 1]` over 2 rss + 1 entries
+      let a : AccView := ⟨m, fun i => 2 * i + 1, iotaInt (2 * m.requiredSpan + 1) fun k => (k : Int)⟩
+      let tuples := allTuples (extOf m)
+      let b := (tuples.foldl (fun (st : AccView × Nat) t => (st.1.set (arr t) (100 + st.2), st.2 + 1)) (a, 0)).1
+      let rd (v : AccView) := "[" ++ ",".intercalate (tuples.map fun t => showOpt (v.get? (arr t))) ++ "]"
+      "size=" ++ toString (mdSize m.rank m.ext) ++ " empty=" ++ showB (mdSize m.rank m.ext == 0) ++
+      " ext=" ++ showList (extOf m) ++ " elems=" ++ rd a ++ " store=" ++ showList b.data ++ " conv=" ++ rd b
+    else
     let a : Md := ⟨m, iotaInt m.requiredSpan fun k => (k : Int)⟩
     let b := writeAll a
     "size=" ++ toString (mdSize m.rank m.ext) ++ " empty=" ++ showB (mdSize m.rank m.ext == 0) ++
     " ext=" ++ showList (extOf m) ++ " elems=" ++ readAll a ++ " store=" ++ showList b.data ++ " conv=" ++ readAll b
   | none => "bad-op"
 
-def handleMdarray (ws : List String) : String :=
+/-- the surplus of the container handed to a container-taking constructor: `pad=K`, K = 1..6 -/
+def parsePad (s : String) : Option Nat :=
+  match s.toList with
+  | ['p', 'a', 'd', '=', c] => if '1' ≤ c ∧ c ≤ '6' then some (c.toNat - '0'.toNat) else none
+  | _ => none
+
+def takesContainer : List String :=
+  ["cont", "contmv", "copy", "conv", "contmve", "contal", "contmval", "mapcontal", "mapcontmval", "copyal", "swap"]
+
+def handleMdarrayPad (ws : List String) (pad : Nat) : String :=
   match ws with
   | it :: pat :: lay :: ctor :: acc :: exts :: [] =>
     match parseMapping [it, pat, lay, ctor, exts] (fun _ => "afull") with
     | some (p, l, _, _, m) =>
       if l == .stride || !validAcc acc p.length || !isFull ws then "bad-op" else
+      let arrForm := ctor == "arrext" || ctor == "arrval" || ctor == "arrcont"
+      if pad != 0 && !(takesContainer.contains ctor || (arrForm && pad == 2)) then "bad-op" else
       let rss := m.requiredSpan
+      let cont := iotaInt (rss + pad) fun k => 10 + (k : Int)
+      -- interleaved storage of the views with the accessor `access(p, i) = p[2 i + 1]`
+      let il (mm : Mapping) : View := AccView.toView ⟨mm, fun i => 2 * i + 1, iotaInt (2 * rss + 1) fun k => 3 * (k : Int) + 1⟩
       let init : Option Md :=
         match ctor with
         | "ext" | "map" | "alloc" => some (Md.new m 0)
         | "variadic" => if p.length = 0 then none else some (Md.new m 0)
         | "extval" | "mapval" | "allocval" => some (Md.new m 7)
-        -- std::array container: only for fully static extents of rank > 0
-        | "arrext" => if p.length = 0 || rankDynamic p ≠ 0 then none else some (Md.new m 0)
-        | "arrval" => if p.length = 0 || rankDynamic p ≠ 0 then none else some (Md.new m 7)
-        | "arrcont" => if p.length = 0 || rankDynamic p ≠ 0 then none else some ⟨m, iotaInt rss fun k => 10 + (k : Int)⟩
+        -- std::array container (of rss + pad elements): only for fully static extents of rank > 0
+        | "arrext" => if p.length = 0 || rankDynamic p ≠ 0 then none else Md.newArray m (rss + pad) 0
+        | "arrval" => if p.length = 0 || rankDynamic p ≠ 0 then none else Md.newArray m (rss + pad) 7
+        | "arrcont" => if p.length = 0 || rankDynamic p ≠ 0 then none else some (Md.fromContainer m cont)
         | "cont" | "contmv" | "copy" | "conv" | "contmve" | "contal" | "contmval" | "mapcontal" | "mapcontmval" | "copyal" =>
-          some (Md.fromContainer m (iotaInt rss fun k => 10 + (k : Int)))
+          some (Md.fromContainer m cont)
         | "extvalal" => some (Md.new m 7)
         -- swap(a, b) with a default-shaped (all dynamic extents 0) and b built from a container: a becomes b
-        | "swap" => some (Md.swap (Md.new (mkMapping l (Extents.dflt p) []) 0) (Md.fromContainer m (iotaInt rss fun k => 10 + (k : Int)))).1
+        | "swap" => some (Md.swap (Md.new (mkMapping l (Extents.dflt p) []) 0) (Md.fromContainer m cont)).1
         -- mdarray(): needs a dynamic extent; all dynamic extents are 0
         | "default" =>
           if rankDynamic p = 0 || toList m.rank m.ext != (Extents.dflt p).toList then none
           else some (Md.new (mkMapping l (Extents.dflt p) []) 0)
         | "span" | "spanal" => some (Md.fromMdspan m ⟨m, iotaInt rss fun k => 3 * (k : Int) + 1⟩)
         | "strided" => some (Md.fromMdspan m ⟨m.toStride, iotaInt rss fun k => 3 * (k : Int) + 1⟩)
+        | "spanil" | "spanilal" => some (Md.fromView m (il m))
+        | "stridedil" => some (Md.fromView m (il m.toStride))
         | _ => none
       match init with
       | none => "bad-op"
       | some a =>
         let b := writeAll a
-        "csize=" ++ toString a.data.length ++ " size=" ++ toString (mdarraySize a.map.rank a.map.ext) ++ " ext=" ++ showList (extOf a.map) ++
+        "csize=" ++ toString a.containerSize ++ " size=" ++ toString a.size ++
+        " vsize=" ++ toString (mdSize a.map.rank a.map.ext) ++ " ccsize=" ++ toString (Md.fromMdspan a.map b).containerSize ++
+        " ext=" ++ showList (extOf a.map) ++
         " init=" ++ showList a.data ++ " cont=" ++ showList b.data ++ " view=" ++ readAll b
     | none => "bad-op"
+  | _ => "bad-op"
+
+def handleMdarray (ws : List String) : String :=
+  match ws with
+  | [it, pat, lay, ctor, acc, exts] => handleMdarrayPad [it, pat, lay, ctor, acc, exts] 0
+  | [it, pat, lay, ctor, acc, exts, padTok] =>
+    match parsePad padTok with
+    | some k => handleMdarrayPad [it, pat, lay, ctor, acc, exts] k
+    | none => "bad-op"
+  | _ => "bad-op"
+
+/-! ### bigmap -/
+
+def bigBlock (m : Mapping) (tuples : List (List Nat)) : String :=
+  let strs := if m.rank = 0 then [] else toList m.rank m.stride
+  "ext=" ++ showList (extOf m) ++ " rss=" ++ toString m.requiredSpan ++ " str=" ++ showList strs ++
+  " offs=" ++ showList (tuples.map fun t => m.offset (arr t)) ++ " msize=" ++ toString (mdSize m.rank m.ext)
+
+def parseTuples (s : String) : Option (List (List Nat)) :=
+  match tokens s with
+  | ["-"] => some []
+  | [t] => (t.splitOn ";").mapM parseNatList?
+  | _ => none
+
+def prodMax1 (l : List Nat) : Nat := l.foldl (fun acc e => acc * (if e = 0 then 1 else e)) 1
+
+def handleBig (line : String) : String :=
+  match line.splitOn " : " with
+  | [hd, tl] =>
+    match tokens hd, parseTuples tl with
+    | "bigmap" :: it :: pat :: lay :: rest, some tuples =>
+      if !bigTable.contains (it ++ ":" ++ pat) then "bad-op" else
+      match limitOf it, parseMapping (it :: pat :: lay :: "afull" :: rest) id true with
+      | some lim, some (p, l, _, e, m) =>
+        let ext := extOf m
+        let strs := toList m.rank m.str
+        -- preconditions: span (extents 0 counted as 1) and strides fit the index type; valid index tuples
+        let span1 := 1 + ((List.range p.length).map fun r => ((if ext.getD r 0 = 0 then 1 else ext.getD r 0) - 1) * strs.getD r 0).foldl (· + ·) 0
+        if prodMax1 ext > lim || (l == .stride && (strs.any (· > lim) || span1 > lim)) || tuples.length > 64 ||
+            tuples.any (fun t => t.length != p.length || (List.range p.length).any fun r => t.getD r 0 ≥ ext.getD r 0) then "bad-op" else
+        let blk (mm : Mapping) := bigBlock mm tuples
+        let smid := m.toStride
+        match smid.convertTo l with
+        | none => "bad-op"
+        | some sfin =>
+          -- extents conversion to an all-dynamic extents type of another index type, and back
+          match Extents.convert (p.map fun _ => none) e with
+          | none => "bad-op"
+          | some e2 =>
+            let m2 : Mapping := { lay := l, rank := e2.rank, ext := e2.extent, str := fun r => m.stride r }
+            match Extents.convert p e2 with
+            | none => "bad-op"
+            | some e3 =>
+              let m3 : Mapping := { lay := l, rank := e3.rank, ext := e3.extent, str := fun r => m2.stride r }
+              "src{" ++ blk m ++ "} smid{" ++ blk smid ++ "} sfin{" ++ blk sfin ++ "} dmid{" ++ blk m2 ++ "} dfin{" ++ blk m3 ++ "}"
+      | _, _ => "bad-op"
+    | _, _ => "bad-op"
   | _ => "bad-op"
 
 def showExt (e : Option Nat) : String := match e with | some n => toString n | none => "d"
@@ -295,6 +395,7 @@ def handle (line : String) : String :=
   | "mdspan" :: ws => handleMdspan ws
   | "mdarray" :: ws => handleMdarray ws
   | "span" :: _ => handleSpan line
+  | "bigmap" :: _ => handleBig line
   | _ => "bad-op"
 
 def main : IO Unit := runDriver handle
